@@ -28,6 +28,11 @@ def Z7J(n=2):  # both outputs of one task are inputs of the same downstream task
     return dict(name="Z7J", max=2, bufsize=2,
                 procs=[src("s", zoo.items(n)), cmd("a", ["in"], ["o1", "o2"]), cmd("j", ["l", "r"])],
                 edges=[E("s.out", "a.in"), E("a.o1", "j.l"), E("a.o2", "j.r")])
+def LONGCMD(n=2):   # a command of more than 4096 characters (long Prepend)
+    i = zoo.Z1(n=n); i["name"] = "LONGCMD"
+    for p in i["procs"]:
+        if p["name"] == "a": p["prepend"] = "env VERIF_LONG=" + "x" * 5000
+    return i
 def PP(n=2):   # Prepend: the recorded command must be the executed one
     i = zoo.Z1(n=n); i["name"] = "PP"
     for p in i["procs"]:
@@ -53,7 +58,10 @@ def parse_time(s):
     m = re.match(r"(\d+)-(\d+)-(\d+)T(\d+):(\d+):(\d+)(\.\d+)?", s or "")
     if not m: return None
     import datetime
-    return datetime.datetime(*map(int, m.groups()[:6])).timestamp() + float(m.group(7) or 0)
+    try:
+        return (datetime.datetime(*map(int, m.groups()[:6])) - datetime.datetime(1, 1, 1)).total_seconds() + float(m.group(7) or 0)
+    except ValueError:
+        return None
 
 def expected_tags(inst, exp):
     """tags a file carries: added by maptotags components it passes through, inherited through tasks from all inputs"""
@@ -106,6 +114,7 @@ def audit_checks(inst, exp, rr, report, dirmap_events=None):
         if ev["ev"] == "task.new":
             proc, key = task_key(ev["task"]); tmp_of[key] = ev["tmp"]; cmd_of[key] = ev["cmd"]
     executed = {r["key"]: r["cmdline"] for r in rr.cmdlog if r["tag"] == "C"}
+    started = {r["key"] for r in rr.cmdlog if r["tag"] == "S"}      # incl. Go-function tasks (no shell, no command line)
     tags = expected_tags(inst, exp)
     def path_of(i):
         return ("o/%s.txt" % i) if any(i in t["outs"] for t in exp["tasks"]) else ("in/%s.txt" % i)
@@ -136,7 +145,7 @@ def audit_checks(inst, exp, rr, report, dirmap_events=None):
             if (rec.get("Tags") or {}) != tags.get(o, {}):
                 report("C10", "%s.audit.json: Tags %r, expected %r (tags attached upstream must be present downstream)" % (path, rec.get("Tags"), tags.get(o, {})))
             st, ft = parse_time(rec.get("StartTime")), parse_time(rec.get("FinishTime"))
-            if t["key"] in executed and (st is None or ft is None or st > ft or (rec.get("ExecTimeNS") or -1) < 0):
+            if (t["key"] in executed or t["key"] in started) and (st is None or ft is None or st > ft or (rec.get("ExecTimeNS") or -1) < 0):
                 report("C10", "%s.audit.json: timing not sane: start %r finish %r ExecTimeNS %r" % (path, rec.get("StartTime"), rec.get("FinishTime"), rec.get("ExecTimeNS")))
             want_up = {path_of(i) for i in t["ins"]}
             if set((rec.get("Upstream") or {}).keys()) != want_up:
@@ -168,7 +177,10 @@ def check_C10(tier):
     R = FSRunner(chk, {"C10"})
     R.closed(FA(), maxruns=2, env=("crash", "cleanup", "rerun"))
     R.closed(FB(), maxruns=1, env=())
-    insts = [zoo.Z1(n=3), zoo.Z3(n=3), zoo.Z7(n=2), TG(), TGT(), TG3(), Z7J(), PP(), zoo.Z6(n=2), zoo.Z4(n=2)] + ([zoo.Z2(n=3), FD(), zoo.Z14(n=3), zoo.Z9(n=2)] if thorough else [])
+    gf = zoo.Z1(n=2); gf["name"] = "Z1GO"        # Go-function tasks between shell tasks
+    for p in gf["procs"]:
+        if p["name"] == "a": p["kind"] = "gofunc"
+    insts = [zoo.Z1(n=3), zoo.Z3(n=3), zoo.Z7(n=2), TG(), TGT(), TG3(), Z7J(), PP(), LONGCMD(), FD(), gf, zoo.Z6(n=2), zoo.Z4(n=2)] + ([zoo.Z2(n=3), zoo.Z14(n=3), zoo.Z9(n=2)] if thorough else [])
     def one(inst):
         exp = fc.expected(inst)
         cmds = [p["name"] for p in inst["procs"] if p["kind"] in ("cmd", "gofunc")]
@@ -269,9 +281,9 @@ def check_C11(tier):
     from . import fs as fsmod
     z3 = zoo.Z3(n=3, mx=2); z3["ctl"] = {"a.sleep": "0.12"}     # diamond with a positional join; recomputed tasks are slow
     tg3 = TG3()
-    for inst in [FA(), FB(), z3, tg3] + ([FD(), zoo.Z3(n=2, mx=1), TGT()] if thorough else []):
+    for inst in [FA(), FB(), z3, tg3, LONGCMD()] + ([FD(), zoo.Z3(n=2, mx=1), TGT()] if thorough else []):
         exp = fc.expected(inst)
-        hs = crash_histories(inst, rng, n=None if thorough else 16, depth2=6 if thorough else 2, cleaned=True) if inst["name"] not in ("Z3", "TG3", "TGT") else []
+        hs = crash_histories(inst, rng, n=None if thorough else 16, depth2=6 if thorough else 2, cleaned=True) if inst["name"] not in ("Z3", "TG3", "TGT", "LONGCMD") else []
         cmds = [p["name"] for p in inst["procs"] if p["kind"] in ("cmd", "gofunc")]
         # RunTo split: first the upstream part, then everything
         for tgt in cmds[:-1]:
